@@ -1,12 +1,14 @@
 import Percival.Driver.Loop
 import Percival.Driver.Ds
+import Percival.Driver.Dsmon
 import Percival.Model.AfStep
 /-!
 `pmodel af`: line protocol of harness/h_allocfail.c — pointer heap, timer queue and event registration under an
 allocation-failure schedule.  Thin by construction: `parseOp` turns a line into a typed `Spec.AfMon.Op`,
 `Model.AfStep.stepOp` does everything else, `render` prints its typed output (`l1Toks` joined by spaces, ` | `, `l2Str`).
 
-Ops: `failat k` / `failfrom k` / `failoff`; `h_init`, `h_add id key`, `h_min`, `h_delmin`, `h_free`;
+Ops: `failat k` / `failfrom k` / `failoff`; `h_init`, `h_create id:key,id:key,…` (`-`: no element), `h_add id key`,
+`h_min`, `h_delmin`, `h_free`;
 `reg_imm id prio`, `cancel_imm id`, `reg_tm id usec`, `cancel_tm id`, `reg_net id fd w`, `cancel_net fd w`,
 `clock usec`, `run`, `end`.  L1: status, `rf` = requests refused during the op, (`id=`, `ran=`).  L2: heap array
 and allocation / the whole registration state, pool fill, live library blocks, request sizes.
@@ -15,8 +17,17 @@ namespace Percival.Driver.Af
 open Percival.Driver Percival.Model Percival.Model.EvReg Percival.Model.AfStep
 open Percival.Spec.AfMon (Op)
 open Percival.Driver.Ds (showL2c showWord kv)
+open Percival.Driver.Dsmon (splitCh)
 
 /-! ## text → typed op (shared with `pmodel afmon`) -/
+
+/-- the elements of `h_create`: `-` = none; otherwise `<id>:<key>` separated by `,` -/
+def parseEls (s : String) : Option (List (Nat × Int)) :=
+  if s = "-" then some [] else
+  (splitCh ',' s).mapM fun t =>
+    match splitCh ':' t with
+    | [i, k] => do pure ((← i.toNat?), (← k.toInt?))
+    | _ => none
 
 def parseOp : List String → Option Op
   | ["failat", k] => do pure (.failat (← k.toNat?))
@@ -28,6 +39,7 @@ def parseOp : List String → Option Op
   | ["h_min"] => some .hMin
   | ["h_delmin"] => some .hDelmin
   | ["h_free"] => some .hFree
+  | ["h_create", els] => do pure (.hCreate (← parseEls els))
   | ["reg_imm", id, prio] => do pure (.regImm (← id.toNat?) (← prio.toNat?))
   | ["cancel_imm", id] => do pure (.cancelImm (← id.toNat?))
   | ["reg_tm", id, usec] => do pure (.regTm (← id.toNat?) (← usec.toInt?))
